@@ -62,11 +62,7 @@ class Job:
 
     def kf_classes(self):
         """known-finding classes this job's inputs lie in"""
-        out = set()
-        c = self.codec
-        if c.kind == "vox" and any(len(v) % 2 for (_, _, _, v) in self.calls):
-            out.add("KF-VOX-ODD")
-        return out
+        return set()        # KF-VOX-ODD (odd item counts on OKI/VOX) is repaired: no class is left
 
     def harness_script(self):
         c = self.codec
@@ -158,9 +154,7 @@ def pick_n(rng, spb, quick):
 def read_ops(rng, codec, ch, frames, ty, seekable, nops, allow_big=True):
     """reference read of everything, then seek/read history in one caller type"""
     ops = [("r", ty, "i", (frames + 3 * codec.spb + 5) * ch)]
-    if codec.kind == "vox" and ops[0][3] % 2:
-        ops[0] = ("r", ty, "i", ops[0][3] + 1)
-    ops.append(("r", ty, "i", 2 * ch if codec.kind == "vox" else ch))
+    ops.append(("r", ty, "i", ch))
     if not seekable:
         return ops
     b = codec.spb
@@ -214,8 +208,6 @@ def make_jobs(ctx, njobs, quick):
             n = min(n, 12 * c.spb + 3)
         if c.kind.startswith("dpcm") and rng.random() < 0.15:
             n = rng.randrange(8000, 20000)          # beyond the 8192-byte staging buffer of xi.c
-        if c.kind == "vox" and rng.random() < 0.8:
-            n -= n % 2
         kind = rng.choice(["roundtrip", "partition", "stream"]) if not c.wav else "stream"
         if kind == "roundtrip" and c.lossless:
             tys = [rng.choice(sorted(c.lossless))]
@@ -230,10 +222,6 @@ def make_jobs(ctx, njobs, quick):
                 z = c.lossless[ty]
                 vals = [v & ~((1 << z) - 1) & ((1 << (4 * DIG[ty])) - 1) for v in vals]
             calls.append((ty, unit, cnt, vals))
-        if c.kind == "vox" and calls and kind != "partition":
-            # odd counts inside the file shift everything after them (known finding): keep most jobs even
-            if rng.random() < 0.7:
-                calls = [cl for cl in calls if len(cl[3]) % 2 == 0]
         nfr = sum(len(v) for (_, _, _, v) in calls) // ch
         F = nfr
         if c.kind == "paf24":
@@ -241,7 +229,7 @@ def make_jobs(ctx, njobs, quick):
         if c.wav:
             F = (nfr + c.spb - 1) // c.spb * c.spb
         if c.kind == "vox":
-            F = 2 * sum((len(v) + 1) // 2 for (_, _, _, v) in calls)
+            F = 2 * ((nfr + 1) // 2)         # two samples per byte; an odd total gets the encoder's zero sample at close
         rty = tys[0] if kind == "roundtrip" else rng.choice(TYS)
         seekable = c.kind in ("paf24", "sds") or c.wav
         rops = read_ops(rng, c, ch, F, rty, seekable and kind == "stream", 30 if quick else 60)
@@ -252,9 +240,7 @@ def make_jobs(ctx, njobs, quick):
             partread = True
             rops, left = [], F + 6
             while left > 0:
-                k = min(left, rng.choice([1, 2, 3, 7, 64, 255, 512, 513, 4096, 4097, 8192, 8193, left]))
-                if c.kind == "vox":
-                    k += k % 2
+                k = min(left, rng.choice([1, 2, 3, 7, 64, 255, 511, 512, 513, 4095, 4096, 4097, 8192, 8193, left]))
                 rops.append(("r", rng.choice(TYS), "i", k))
                 left -= k
         if not seekable and rng.random() < 0.5:
@@ -398,7 +384,7 @@ def analyse(job, hs, impl, model, twins):
     if reads and not getattr(job, "partread", False):
         k0, t0, ret0, ref = reads[0]
         ty = t0[2]
-        if ret0 != F * ch and not (c.kind == "vox"):
+        if ret0 != F * ch:
             probs.append(Problem(job, "pred", "frames", "re-open reports %d frames, the sequential read delivered %d items (%d channels)" % (F, ret0, ch), k0))
         if len(reads) > 1 and reads[1][2] != 0:
             probs.append(Problem(job, "pred", "eof", "a read after the end returned %d" % reads[1][2], reads[1][0]))
